@@ -25,6 +25,7 @@ EXPLANATION = (
     ' Round-4 triage: (15) case-mapped alphabet tests are conjoined with isascii(), every accepting return of NumEdit.valid_char depends on the cursor position (nothing in front of a leading minus sign), validating regexes use fullmatch and re.ASCII with IGNORECASE; C10.6 now accepts any accepting return that is dominated by a bounding test (false alarm on the repaired valid_char corrected). Round 5: (16) column tests against the end of a layout segment are half-open.'
     ' Round 6: (17) shift_line: after an existing padding segment was folded into the amount every result is built from the line without that segment.'
     ' Round 7: (19) = C11.16 (character stepping consults within_double_byte() before answering for non-UTF-8 bytes) and (20) = C14.5 (emit calls every handler) are part of this check too.'
+    " Round 8: (21) PAIR: a layout segment's declared columns are measured over its own offsets (C03.13)."
 )
 NOT_DECIDED = "Equality with the reference editor: row moves, preferred-column arithmetic, clip-mode view shift, click-to-offset mapping, leading-zero trimming arithmetic of IntEdit/NumEdit."
 ASSUMPTIONS = []
